@@ -561,6 +561,20 @@ def check(ctx):
     check_total_reads(ctx, pk, readers)
     check_formatting_total(ctx, pk)
     check_init_unpack_agree(ctx)
+    # Round 6: a parsed packet and a constructed one hold the same attributes for the same values:
+    # Packet.unpack creates the packet and hands it to the drivers, it stores nothing on it itself
+    # (C12 Packet.unpack language) -- a pre-set slot that the constructor leaves unset makes the
+    # two compare unequal as soon as __eq__ tells "missing" from None
+    from .c12 import check_packet_unpack
+    check_packet_unpack(ctx, 'R11-parsed-equals-built')
+    # '%s' % value takes a tuple value as the argument list: repr raises TypeError for it
+    rp_ = repo.method(pk, '__repr__')
+    for m_ in [x for x in (rp_, pk.methods.get('__str__')) if x is not None]:
+        for n_ in ast.walk(m_.node):
+            if isinstance(n_, ast.BinOp) and isinstance(n_.op, ast.Mod) and not isinstance(n_.right, (ast.Tuple, ast.Dict)) \
+                    and any(isinstance(x, ast.Call) and call_name(x) == 'getattr' for x in ast.walk(n_.right)) \
+                    and any(isinstance(x, ast.Constant) and isinstance(x.value, str) and '%' in x.value for x in ast.walk(n_.left)):
+                ctx.violation('R11-total-reads', m_, stmt_text(n_)[:100], 'a field value is the bare right operand of a %-format: a tuple value (a repeated field given as a tuple) is taken as the list of arguments and formatting raises TypeError', n_.lineno, witness=True)
     # "change one field of one of two equal packets, at any depth, and they differ": the two packets
     # share no mutable value -- what init stores is the keyword or a deep copy of the declared
     # default (C19 init rule), and nothing a field hands out is shared (C13 freshness)
